@@ -481,9 +481,13 @@ EGLPNUM_TYPENAME_QSLIB_INTERFACE int EGLPNUM_TYPENAME_QSopt_pivotin_row (
 
 	rval = EGLPNUM_TYPENAME_ILLsimplex_pivotin (p->lp, p->pricing, rcnt, rlist,
 														 SIMPLEX_PIVOTINROW, &basismod);
-	CHECKRVALG (rval, CLEANUP);
-
-	rval = grab_basis (p);
+	if (basismod)
+	{
+		/* the basis moved, also when the request could be carried out in part
+		 * only: the stored copy of the basis has to follow */
+		if (grab_basis (p))
+			rval = 1;
+	}
 	CHECKRVALG (rval, CLEANUP);
 
 CLEANUP:
@@ -535,9 +539,11 @@ EGLPNUM_TYPENAME_QSLIB_INTERFACE int EGLPNUM_TYPENAME_QSopt_pivotin_col (
 
 	rval = EGLPNUM_TYPENAME_ILLsimplex_pivotin (p->lp, p->pricing, ccnt, ilist,
 														 SIMPLEX_PIVOTINCOL, &basismod);
-	CHECKRVALG (rval, CLEANUP);
-
-	rval = grab_basis (p);
+	if (basismod)
+	{
+		if (grab_basis (p))
+			rval = 1;
+	}
 	CHECKRVALG (rval, CLEANUP);
 
 CLEANUP:
